@@ -10,7 +10,7 @@ CHECKS = {
   level="model_checking",
   technique="TLA+ model checking (TLC: seq.go transcription = direct-style reference on all terms) + replay of every TLC-emitted case on the real runtime",
   text="TLC checks, exhaustively over all well-formed combinator terms up to the size bound x all input tapes x all truncations, that SeqMachine.tla (function-by-function transcription of seq/seq.go) equals SeqStructured.tla (structured loops with break/continue/return: the documented semantics). Every explored case is emitted with its expected per-call observation and replayed through the public API of the real runtime built from /repo; yields, thunk/cond/post evaluation order and counts, and Result must agree.",
-  note="Trusted: TLC; the rendering of terms to seq.* calls (one function per node kind); rt.Rec as Go twin of Rec.tla. Bounded: terms up to 3 (quick) / 4 (thorough) combinator nodes, int elements, one captured variable.",
+  note="Trusted: TLC; the rendering of terms to seq.* calls (one function per node kind); rt.Rec as Go twin of Rec.tla. Bounded: terms up to 3 (quick, tapes up to 3) / 4 (thorough, tapes up to 2) combinator nodes, int elements, one captured variable.",
   design="7 C08, 3.4, 3.5"),
 }
 
@@ -18,7 +18,7 @@ CHECKS["C09"] = dict(
   level="model_checking",
   technique="TLA+ model checking of all call histories (TLC) + Apalache inductive invariant of the abstract protocol + replay of every history on the real generator",
   text="TLC explores every history over MoveNext/Current/Send/Result up to the length bound on a family of generators (0..n yields, with/without result, effectful, echoing BindRecv, infinite) and checks: Current is zero when fresh/exhausted, exhaustion is permanent and runs no generator code (action property), agreement with the structured reference where Send(v) means resume-with-v, and refinement of the abstract protocol machine GenProtocol, whose inductive invariant Apalache discharges without bound. Every history is replayed on the real generator; the return value of every call, Current (read twice), Result and the generator-side effect log must match.",
-  note="Trusted: TLC, Apalache, the term renderer, rt.Rec. Send/Result have no native Go reference; the oracle is the seq.go transcription cross-checked against the structured reference. Bounded: histories of length 5 (quick) / 7 (thorough), 9 generators.",
+  note="Trusted: TLC, Apalache, the term renderer, rt.Rec. Send/Result have no native Go reference; the oracle is the seq.go transcription cross-checked against the structured reference. Bounded: histories of length 5 (quick) / 6 (thorough), 9 generators.",
   design="7 C09, 3.8")
 
 SRC_NOTE = "Trusted: TLC; the renderers (one function per AST node kind; every rendered go-co source must type-check under -tags co or the run exits 2); rt.Rec as the Go twin of Rec.tla; Go's own iter.Pull as the native reference that the specification must equal on every case before any verdict is given (disagreement = exit 2, never a violation). "
